@@ -90,6 +90,7 @@ def registration_keys_agree(prog, chk):
 def run(prog, chk):
     chk.rule(unknown_ref_is_error, prog, chk)
     chk.rule(registration, prog, chk)
+    chk.rule(registry_discipline, prog, chk)
     chk.rule(registration_keys_agree, prog, chk)
     from props import C17, C15, C01_loops, C06
     chk.rule(C17.depth_pairing, prog, chk)
@@ -265,6 +266,60 @@ def _withdrawn_when_deferred(prog, body):
         return True
 
     return all(any(only_needs_an_element(w, pb) for w in ws) for pb in pushes)
+
+
+def registry_discipline(prog, chk):
+    """two maps hold elements by id: `elem_map`, the elements as resolved so far (what a positional reference may
+    see), and `original_map`, the elements as written (what `<reuse>` instantiates).  (1) The only function that looks
+    an id up for a reference (get_element) reads elem_map and nothing else - an element that was withdrawn because it
+    is not resolved yet must not be found again in its as-written form; (2) forget_element withdraws on every path on
+    which the element has an id: whether the stale entry "looks usable" is not a reason to keep it"""
+    CTX = "svgdx::context::TransformerContext"
+    ge = prog.maybe_body(f"<{CTX} as svgdx::context::ElementMap>::get_element")
+    if ge is None:
+        chk.anchor_missing("A13.registry", "TransformerContext::get_element not found")
+    else:
+        chk.touch(ge)
+        scope = [ge] + list(prog.closures_of(ge))
+        orig = [(bd, x) for bd in scope for (x, i, node) in R.place_reads(bd, (".original_map",))]
+        cur = [(bd, x) for bd in scope for (x, i, node) in R.place_reads(bd, (".elem_map",))]
+        if not cur and not orig:
+            chk.undecided("A13.registry", "get_element:source", ge.where(), "get_element reads neither elem_map nor original_map directly: where it looks an id up is not read here")
+        else:
+            chk.ob(not orig, "A13.registry", "get_element:source", ge.where(), "get_element looks an id up among the resolved elements only", f"get_element also consults original_map ({orig[0][0].where(orig[0][1]) if orig else ''}): an element withdrawn because it is not resolved yet is found again as it was written - a reference to it is resolved against a default-positioned box instead of being deferred")
+    fe = prog.maybe_body(f"{CTX}::forget_element")
+    if fe is None:
+        chk.anchor_missing("A13.registry", "TransformerContext::forget_element not found")
+        return
+    chk.touch(fe)
+    rem = [bb for (bb, t, c) in fe.call_sites(lambda c: c.path.split("::")[-1] in ("remove", "remove_entry") and ("HashMap" in c.path or "BTreeMap" in c.path)) if R.origin(fe, t["args"][0], carriers={"deref_mut": 0, "deref": 0})[0] == "field"]
+    ev = [bb for (bb, t, c) in fe.call_sites(lambda c: c.path.endswith("expression::eval_attr"))]
+    if not rem or not ev:
+        chk.undecided("A13.registry", "forget_element:unconditional", fe.where(), f"forget_element: {len(rem)} removal(s) from a map field and {len(ev)} evaluation(s) of the id found: whether every element with an id is withdrawn is not read here")
+        return
+    # what the removal depends on: only on there being an id (tests of an Option / Result that carries the id string)
+    from sa import discharge as D
+
+    other = []
+    for rb in rem:
+        for (a, x) in D.dominating_edges(fe, rb):
+            ta = fe.term(a)
+            if ta["k"] != "switch":
+                continue
+            sd = R.switch_discr_place(fe, a)
+            if sd is not None:
+                ty = sd[1]
+                if ("String" in ty or "str" in ty) and ty.startswith(("std::option::Option<", "std::result::Result<", "std::ops::ControlFlow<")):
+                    continue
+                other.append(f"a test of a {ty[:60]} value ({fe.where(a)})")
+                continue
+            o = R.origin(fe, ta["op"], carriers={})
+            if o[0] == "rv" and o[1].get("k") == "unop" and o[1].get("op") == "Not":
+                o = R.origin(fe, o[1]["a"], carriers={})
+            if o[0] == "call" and "fn" in o[2] and Callee(o[2]["fn"]).path.split("::")[-1] in ("is_some", "is_none", "is_ok", "is_err") and ("String" in (Callee(o[2]["fn"]).inst or "") or "str" in (Callee(o[2]["fn"]).inst or "")):
+                continue
+            other.append(f"a condition at {fe.where(a)}")
+    chk.ob(not other, "A13.registry", "forget_element:unconditional", fe.where(rem[0]), "forget_element removes the entry whenever the element has an id: the removal depends on nothing else", f"the removal in forget_element also depends on {other[0] if other else ''}: a deferred element can stay registered in its provisional form, and an earlier sibling that refers to it is resolved against that - wrong position, wrong extent")
 
 
 def registration(prog, chk):
